@@ -142,6 +142,23 @@ theorem moveOut_ok {s s' : St} {ids : List Nat} {dst : String} {uids : List Nat}
         recMsgs { s1 with db := updBox s1.db recName (fun b => b.remove ids) } := recMsgs_db hf.1
     rw [this, recMsgs_remove s1 ids _ rfl, h1.recm]
 
+/-- the destination UIDs of the COPYUID item are destination UIDs that were assigned (all, or none) -/
+theorem copyUidItem_snd (sel : List (Nat × Nat)) (d : List Nat) : ∀ u ∈ (copyUidItem sel d).2, u ∈ d := by
+  intro u hu
+  unfold copyUidItem at hu
+  split at hu
+  · exact hu
+  · simp at hu
+
+/-- the item carries every selected UID with as many destination UIDs, or nothing at all -/
+theorem copyUidItem_cases (sel : List (Nat × Nat)) (d : List Nat) :
+    ((copyUidItem sel d).1 = sel.map (·.1) ∧ (copyUidItem sel d).2 = d ∧ d.length = sel.length) ∨
+    ((copyUidItem sel d).1 = [] ∧ (copyUidItem sel d).2 = [] ∧ d.length ≠ sel.length) := by
+  unfold copyUidItem
+  split
+  · next h => exact Or.inl ⟨rfl, rfl, by simpa using h⟩
+  · next h => exact Or.inr ⟨rfl, rfl, by simpa using h⟩
+
 theorem copy_out_spec {s s' : St} {uids : List Nat} {dst : String} {r : CopyRes}
     (h : copy s recName uids dst = (r, s')) :
     recMsgs s' = recMsgs s ∧
@@ -171,14 +188,15 @@ theorem copy_out_spec {s s' : St} {uids : List Nat} {dst : String} {r : CopyRes}
           simp at e
           obtain ⟨_, e2⟩ := e
           subst e2
-          exact copyOut_ok (withTx_ok he)
+          obtain ⟨b', hb', hall⟩ := copyOut_ok (withTx_ok he)
+          exact ⟨b', hb', fun u hu => hall u (copyUidItem_snd _ _ u hu)⟩
 
 theorem move_out_spec {s s' : St} {uids : List Nat} {dst : String} {r : CopyRes}
     (h : move s recName uids dst = (r, s')) :
     ((∀ su du, r ≠ .ok su du) → recMsgs s' = recMsgs s) ∧
     ∀ su du, r = .ok su du →
       (∃ b', getBox s'.db dst = some b' ∧ ∀ u ∈ du, ∃ id, (u, id) ∈ b'.msgs) ∧
-      ∃ bs, getBox s.db recName = some bs ∧ (su = (selectUids bs uids).map (·.1) ∨ (su = [] ∧ du.length ≠ (selectUids bs uids).length)) ∧
+      ∃ bs, getBox s.db recName = some bs ∧ (su = (selectUids bs uids).map (·.1) ∨ (su = [] ∧ du = [])) ∧
         recMsgs s' = (recMsgs s).filter (fun p => !((selectUids bs uids).map (·.2)).contains p.2) := by
   unfold move at h
   split at h
@@ -201,12 +219,11 @@ theorem move_out_spec {s s' : St} {uids : List Nat} {dst : String} {r : CopyRes}
           simp at e
           obtain ⟨e1, e2⟩ := e
           subst e1 e2
-          obtain ⟨ha, hb⟩ := moveOut_ok hd (withTx_ok he)
-          refine ⟨ha, bs, hbs, ?_, hb⟩
-          unfold moveSrcUids
-          split
-          · next hc => simp at hc; exact Or.inr ⟨rfl, hc⟩
-          · exact Or.inl rfl
+          obtain ⟨⟨b', hb', hall⟩, hb⟩ := moveOut_ok hd (withTx_ok he)
+          refine ⟨⟨b', hb', fun u hu => hall u (copyUidItem_snd _ _ u hu)⟩, bs, hbs, ?_, hb⟩
+          rcases copyUidItem_cases (selectUids bs uids) d with ⟨h1, _, _⟩ | ⟨h1, h2, _⟩
+          · exact Or.inl h1
+          · exact Or.inr ⟨h1, h2⟩
 
 /-! ### "answered OK" means "is in the destination", de-duplicated or not -/
 
